@@ -7,4 +7,4 @@ mkdir -p $B
 cp ../coq/extracted/model.ml ../coq/extracted/model.mli *.ml $B/
 cd $B
 ENG=$(ls e_*.ml | sort | tr '\n' ' ')
-ocamlfind ocamlopt -w -a -package str -linkpkg model.mli model.ml util.ml $ENG driver.ml -o ../driver
+ocamlfind ocamlopt -w -a -package str -linkpkg model.mli model.ml util.ml autdump.ml $ENG driver.ml -o ../driver
